@@ -41,6 +41,7 @@ META = dict(
 
 MODELS = {
     "arm": """option timestep=0.25
+size memory=262144
 body name=b1 pos=0,0,1
 joint body=b1 name=j1 type=3 axis=0,1,0
 geom body=b1 name=g1 type=2 size=0.1,0,0
@@ -52,7 +53,7 @@ actuator name=a1 trntype=0 target=j1 gainprm=1
 sensor name=sen1 type=9 objtype=3 objname=j1
 equality name=e1 type=1 objtype=1 name1=b1 name2=b2""",
     "rich": """option timestep=0.125
-size nuserdata=2 nkey=1 nuser_body=1 nuser_geom=2
+size nuserdata=2 nkey=1 nuser_body=1 nuser_geom=2 memory=262144
 texture name=tx type=0 builtin=1 width=4 height=4 rgb1=1,0,0 rgb2=0,1,0
 material name=mat rgba=1,1,1,1
 mesh name=tet uservert=0,0,0,1,0,0,0,1,0,0,0,1 userface=0,2,1,0,1,3,0,3,2,1,2,3
@@ -90,7 +91,8 @@ exclude bodyname1=p bodyname2=q
 numeric name=n1 size=3 data=1,2,3
 text name=tx1 data=hello
 key name=k0 qpos=0,0,1,1,0,0,0,0.1,1,0,0,0 mpos=2,0,1 mquat=1,0,0,0""",
-    "tiny": """body name=b pos=0,0,1
+    "tiny": """size memory=65536
+body name=b pos=0,0,1
 joint body=b name=j type=2 axis=0,0,1
 geom body=b name=g type=6 size=0.1,0.1,0.1""",
 }
@@ -128,11 +130,16 @@ REFS = [
 # references the validator does not cover (documented ids): judged by the sanitizer run only
 UNCHECKED_REFS = [("body_treeid", "ntree", None, True), ("dof_treeid", "ntree", None, False), ("mat_texid", "ntex", None, True)]
 # enum / type fields (content the specification does not interpret): (array, some out-of-range values)
-TYPE_FIELDS = [("jnt_type", (4, -1)), ("geom_type", (77, 9, -1)), ("eq_type", (99, 7)), ("sensor_type", (47, 48, -1, 999)),
-               ("sensor_objtype", (26, 99, -1)), ("sensor_datatype", (9,)), ("sensor_needstage", (9,)),
-               ("wrap_type", (9, -1)), ("actuator_trntype", (7, 999)), ("actuator_dyntype", (99,)),
-               ("actuator_gaintype", (99,)), ("actuator_biastype", (99,)), ("geom_condim", (7, -1)),
-               ("eq_objtype", (99,)), ("mesh_bvhnum", (-1,)), ("body_jntnum", (-1, 99)), ("tendon_num", (-5,))]
+TYPE_FIELDS = [("jnt_type", ((4, "out-of-range"), (-1, "negative"))), ("geom_type", ((77, "out-of-range"), (9, "out-of-range"), (-1, "negative"))),
+               ("eq_type", ((99, "out-of-range"), (7, "out-of-range"))),
+               ("sensor_type", ((47, "PLUGIN"), (48, "USER"), (-1, "negative"), (999, "out-of-range"))),
+               ("sensor_objtype", ((26, "out-of-range"), (99, "out-of-range"), (-1, "negative"))),
+               ("sensor_datatype", ((9, "out-of-range"),)), ("sensor_needstage", ((9, "out-of-range"),)),
+               ("wrap_type", ((9, "out-of-range"), (-1, "negative"))), ("actuator_trntype", ((7, "out-of-range"), (999, "out-of-range"))),
+               ("actuator_dyntype", ((99, "out-of-range"),)), ("actuator_gaintype", ((99, "out-of-range"),)),
+               ("actuator_biastype", ((99, "out-of-range"),)), ("geom_condim", ((7, "out-of-range"), (-1, "negative"))),
+               ("eq_objtype", ((99, "out-of-range"),)), ("mesh_bvhnum", ((-1, "negative"),)),
+               ("body_jntnum", ((-1, "negative"), (99, "out-of-range"))), ("tendon_num", ((-5, "negative"),))]
 OBJ_SIZE = {1: "nbody", 2: "nbody", 3: "njnt", 4: "nv", 5: "ngeom", 6: "nsite", 7: "ncam", 8: "nlight", 9: "nflex", 10: "nmesh",
             11: "nskin", 12: "nhfield", 13: "ntex", 14: "nmat", 15: "npair", 16: "nexclude", 17: "neq", 18: "ntendon",
             19: "nactuator", 20: "nsensor", 21: "nnumeric", 22: "ntext", 23: "ntuple", 24: "nkey", 25: "nplugin"}
@@ -140,6 +147,12 @@ MAKE_ARGS_END = "nnames_map"          # size fields before this one are argument
 MAP_SRC = ["nbody", "njnt", "ngeom", "nsite", "ncam", "nlight", "nflex", "nmesh", "nskin", "nhfield", "ntex", "nmat", "npair",
            "nexclude", "neq", "ntendon", "nactuator", "nsensor", "nnumeric", "ntext", "ntuple", "nkey", "nplugin"]
 INT_MAX = 2147483647
+
+
+def _dbg(*a):
+    if os.environ.get("VERIF_DEBUG"):
+        import sys, time
+        print("[c31 %s]" % time.strftime("%H:%M:%S"), *a, file=sys.stderr, flush=True)
 
 
 def _exe(variant):
@@ -235,10 +248,11 @@ def spec_refs(p):
             per = len(vals) // len(nums) if nums else 1
             if nums and per != 1:
                 raise Machinery("range array %s does not match %s" % (num, arr))
-            recs.append(({"name": arr, "tgt": p.sidx[tgt], "opt": opt, "vals": vals, "nums": nums}, arr, 0, checked))
+            recs.append(({"name": arr, "tgt": p.sidx[tgt], "opt": opt, "vals": vals, "nums": nums,
+                          "group": "range-table" if checked else "unvalidated:" + arr}, arr, 0, checked))
     for arr, k, tgt, opt in typed_refs(p):
-        recs.append(({"name": "%s[%d]" % (arr, k), "tgt": p.sidx[tgt], "opt": opt, "vals": [p.vals[arr][k]], "nums": []},
-                     arr, k, True))
+        recs.append(({"name": "%s[%d]" % (arr, k), "tgt": p.sidx[tgt], "opt": opt, "vals": [p.vals[arr][k]], "nums": [],
+                      "group": "typed:" + arr}, arr, k, True))
     return recs
 
 
@@ -277,17 +291,17 @@ def gen_cases(p, refs, quick, rng):
     """damaged files: list of (spec case dict, implementation patch description, kind, field, value class)"""
     cs = []
 
-    def add(kind, field, vc, patches=(), **kw):
+    def add(kind, field, vc, patches=(), group=None, **kw):
         c = dict(NO)
         c.update(kw)
-        cs.append({"spec": c, "patches": list(patches), "kind": kind, "field": field, "vc": vc})
+        cs.append({"spec": c, "patches": list(patches), "kind": kind, "field": field, "vc": vc, "group": group})
 
     add("pristine", "-", "-")
     # truncation at every prefix length (quick: around every section / array boundary and a coarse grid)
     if quick:
-        cuts = set(range(0, p.total, 211))
+        cuts = set(range(0, p.total, 509))
         for b in p.boundaries():
-            for d in (-8, -1, 0, 1):
+            for d in (-1, 0, 1):
                 if 0 <= b + d < p.total:
                     cuts.add(b + d)
     else:
@@ -317,14 +331,16 @@ def gen_cases(p, refs, quick, rng):
             seen.add(x)
             e = enc(x)
             e["i"] = p.sidx[n]
-            add("size", n, vclass(x, None, v) if abs(x) < 2 ** 31 else ("huge" if x > 0 else "neghuge"),
-                patches=[("size", n, x)], sz=[e])
+            vc = vclass(x, None, v) if abs(x) < 2 ** 31 else ("huge" if x > 0 else "neghuge")
+            if n == "nnames_map":
+                vc = "negative" if x < 0 else "larger" if x > v else "smaller"
+            add("size", n, vc, patches=[("size", n, x)], sz=[e])
     # derived field larger than computed + file extended: the array sized by it would not fit the model buffer
     nm = p.sval["nnames_map"]
     for d in (1, 16, 1000):
         e = enc(nm + d)
         e["i"] = p.sidx["nnames_map"]
-        add("size+ext", "nnames_map", "v+%d,ext" % d, patches=[("size", "nnames_map", nm + d)], sz=[e], ext=4 * d)
+        add("size+ext", "nnames_map", "larger", patches=[("size", "nnames_map", nm + d)], sz=[e], ext=4 * d)
     # argument sizes changed by one with derived fields and length made consistent (arrays move)
     for n in args:
         v = p.sval[n]
@@ -347,18 +363,18 @@ def gen_cases(p, refs, quick, rng):
         if len(ents) > 2:
             ents = [ents[0], ents[-1]] if quick else ents[:3] + ents[-3:]
         for k in sorted(set(ents)):
-            for x in (-1, -2, n, INT_MAX) + (() if quick else (n + 1, -2 ** 31 + 1, n - 1, 0)):
+            for x in ((-1, -2, n, INT_MAX) if k == ents[0] or not quick else (-1, n)) + (() if quick else (n + 1, -2 ** 31 + 1, n - 1, 0)):
                 if x == rec["vals"][k]:
                     continue
-                add("ref" if checked else "ref-unchecked", rec["name"], vclass(x, n),
+                add("ref" if checked else "ref-unchecked", rec["name"], vclass(x, n), group=rec["group"],
                     patches=[("entry", arr, k0 + k, x)], rf=[{"r": ri + 1, "k": k + 1, "v": x}])
     # enum / type fields and raw content the specification does not interpret
     for arr, values in TYPE_FIELDS:
         if not p.vals.get(arr):
             continue
         for k in sorted({0, len(p.vals[arr]) - 1}):
-            for x in values:
-                add("type", arr, str(x), patches=[("entry", arr, k, x)], ty=True)
+            for x, label in values:
+                add("type", arr, label, patches=[("entry", arr, k, x)], ty=True)
     st0 = 20 + 8 * len(p.sizes)
     for _ in range(6 if quick else 60):
         o = st0 + rng.randrange(p.structs)
@@ -428,34 +444,23 @@ def impl_cmd(p, slot, case, out, exercise):
     return "mjbload %d %d %s%s" % (slot, ln, ",".join(toks) if toks else "-", " x" if exercise else "")
 
 
-def run_impl(exe, cmds, cwd, nmodel_cmds_prefix):
-    """run commands with crash recovery: returns list of output lines or ('crash', text)"""
-    out = [None] * len(cmds)
-    start = 0
-    guard = 0
-    while start < len(cmds):
-        guard += 1
-        if guard > 300:
-            raise Machinery("too many harness crashes")
-        r = drv.run_script(exe, nmodel_cmds_prefix + cmds[start:], cwd=cwd, timeout=1800)
-        lines = r.lines[_nprefix(nmodel_cmds_prefix):]
-        done = 0
-        for ln in lines:
-            if start + done >= len(cmds):
-                break
-            if ln.startswith(("null ", "ok ", "error ")):
-                out[start + done] = ln
-                done += 1
-            else:
-                break
-        if start + done >= len(cmds):
-            break
-        if not r.crashed:
-            raise Machinery("harness stopped answering: %r" % lines[done:done + 2])
-        summ = [x for x in lines[done:] if x.startswith("HANG")] or \
-               [x for x in r.err.split("\n") if "SUMMARY" in x or "runtime error" in x]
-        out[start + done] = ("crash", (summ[0] if summ else r.crash_text())[:300])
-        start += done + 1
+def run_impl(exe, cmds, cwd, nmodel_cmds_prefix, symbolize=False):
+    """run the load commands as one mjbbatch (a forked worker; a command it dies at costs one 'crash ...' line)"""
+    r = drv.run_script(exe, nmodel_cmds_prefix + ["mjbbatch %d" % len(cmds)] + cmds, cwd=cwd, timeout=3000,
+                       env={"ASAN_OPTIONS": "detect_leaks=0:abort_on_error=0:exitcode=77:allocator_may_return_null=1:symbolize=%d"
+                                            % (1 if symbolize else 0),
+                            "UBSAN_OPTIONS": "halt_on_error=1:exitcode=78:print_stacktrace=0"})
+    lines = r.lines[_nprefix(nmodel_cmds_prefix):]
+    if r.crashed or len(lines) != len(cmds):
+        raise Machinery("harness died outside a load (%s): %d answers for %d commands" % (r.crash_text()[:200], len(lines), len(cmds)))
+    out = []
+    for ln in lines:
+        if ln.startswith("crash "):
+            out.append(("crash", re.sub(r"\s*\(/[^)]*\)(\s*\(BuildId:[^)]*\)?)?", "", ln[6:])[:300]))
+        elif ln.startswith(("null ", "ok ", "error ")):
+            out.append(ln)
+        else:
+            raise Machinery("unexpected harness answer %r" % ln[:200])
     return out
 
 
@@ -485,7 +490,9 @@ def run(ctx):
     tmp = tempfile.mkdtemp(prefix="c31", dir=os.path.join(VERIF, ".cache"))
     try:
         rng = random.Random(ctx.seed)
+        _dbg("building harnesses")
         exes = {"plain": _exe("plain"), "asan": _exe("asan")}
+        _dbg("built")
         mlines, slots = _model_lines()
         # ---- layout, round trip, reference arrays
         need = sorted({a for a, _t, _n, _o in REFS + UNCHECKED_REFS} | {n for _a, _t, n, _o in REFS if n} |
@@ -535,11 +542,13 @@ def run(ctx):
         total_cases = 0
         acc_info = {"accepted_minus_one_survives": 0, "accepted_unchecked_survives": 0, "exercise_failures_uninterpreted": 0}
         for name, p in pools.items():
-            if ctx.quick and name == "arm":
-                continue                      # quick tier: damaged images of the richest and the smallest model only
+            if ctx.quick and name != "rich":
+                continue                      # quick tier: damaged images of the richest model only (round trips: all)
             refs = spec_refs(p)
             cases = gen_cases(p, refs, ctx.quick, rng)
+            _dbg(name, len(cases), "cases; TLC ...")
             outs = tlc_real(ctx, p, refs, cases, tmp)
+            _dbg(name, "TLC done")
             if outs[1]["res"] != {"ok"} or outs[1]["len"] != p.total:
                 raise Machinery("specification does not accept the pristine image of %s: %r (image %d bytes)"
                                 % (name, outs[1], p.total))
@@ -551,10 +560,12 @@ def run(ctx):
                 cm = [impl_cmd(p, slot, c, outs[i + 1], variant == "asan" and c["kind"] in ("ref", "ref-unchecked", "pristine"))
                       for i, c in enumerate(cases)]
                 got[variant] = run_impl(exes[variant], cm, tmp, prefix)
+                _dbg(name, variant, "implementation done:", sum(1 for g in got[variant] if isinstance(g, tuple)), "dead children")
             judge(ctx, p, cases, outs, got, acc_info, slot)
         # negative control of the comparer: an expectation flipped to "rejection only" must flag the pristine file
         fake = Ctl()
         p0 = pools["tiny"]
+        ctx.cov["info_fields_minus_one"] = sorted(MINUS_ONE_FIELDS)
         c0 = {"spec": dict(NO), "patches": [], "kind": "trunc", "field": "-", "vc": "-"}
         judge(fake, p0, [c0], {1: {"res": {"null"}, "why": {"x"}, "len": p0.total, "map": 0, "nbuf": 0}},
               {"plain": ["ok w=0 refs=ok"], "asan": ["ok w=0 refs=ok ex=ok"]}, dict(acc_info), 0)
@@ -569,6 +580,9 @@ def run(ctx):
                            % (len(pools), total_cases, " (quick: around every boundary + grid)" if ctx.quick else ""))
     finally:
         shutil.rmtree(tmp, ignore_errors=True)
+
+
+MINUS_ONE_FIELDS = set()
 
 
 class Ctl:
@@ -587,6 +601,23 @@ class Ctl:
         pass
 
 
+def sig_tag(c, o):
+    """input class of a case for signatures: references by validator group and value class, enum fields by field,
+    damaged size fields by the reason the specification gives for rejecting them (one root cause = one class;
+    the field is kept where the reason is about that field alone)"""
+    kind, field, vc = c["kind"], c["field"], c["vc"]
+    why = "|".join(sorted(o["why"] - {"accepted"})) or "accepted"
+    if kind in ("ref", "ref-unchecked"):
+        return "ref:%s:%s" % (c["group"], vc)
+    if kind == "type":
+        return "type:%s:%s" % (field, vc)
+    if kind.startswith("size"):
+        if why in ("derived-size-wrong", "validation"):
+            return "size-fields:" + why
+        return "size-fields:%s:%s:%s" % (why, field, vc)
+    return "%s:%s" % (kind, why)
+
+
 def judge(ctx, p, cases, outs, got, info, slot):
     for i, c in enumerate(cases):
         o = outs[i + 1]
@@ -598,16 +629,18 @@ def judge(ctx, p, cases, outs, got, info, slot):
         okall = True
         for variant in ("plain", "asan"):
             g = got[variant][i]
-            tag = "%s:%s:%s" % (kind, field, vc)
+            tag = sig_tag(c, o)
             rpv = dict(rp, variant=variant)
+            if isinstance(g, tuple) and g[1].startswith("exercise"):
+                g = "ok w=0 refs=ok ex=crash:" + g[1][9:].replace(" ", "_")       # the loader had accepted the image
             if isinstance(g, tuple):
-                ctx.violation("loader-crash:" + tag, "model %s (%s build): loading the image damaged by %s dies: %s"
-                              % (p.name, variant, tag, g[1]), rpv)
+                ctx.violation("loader-crash:" + tag, "model %s (%s build): loading the image damaged by %s:%s:%s dies: %s"
+                              % (p.name, variant, kind, field, vc, g[1]), rpv)
                 okall = False
                 continue
             if g.startswith("error"):
                 ctx.violation("loader-error:" + tag, "model %s (%s build): mj_loadModelBuffer raises mju_error instead of "
-                              "warning + NULL for %s: %s" % (p.name, variant, tag, g[:200]), rpv)
+                              "warning + NULL for %s:%s:%s: %s" % (p.name, variant, kind, field, vc, g[:200]), rpv)
                 okall = False
                 continue
             if g.startswith("null"):
@@ -625,33 +658,52 @@ def judge(ctx, p, cases, outs, got, info, slot):
             ex = re.search(r'ex=(\S+)', g)
             ex = ex.group(1) if ex else None
             if "ok" in o["res"]:
-                if ex and ex not in ("ok", "nodata") and kind not in ("type",):
-                    if kind == "pristine" or kind in ("ref", "ref-unchecked"):
-                        ctx.violation("accepted-model-misbehaves:" + tag, "model %s (%s): image %s is accepted (admissible) "
-                                      "but mj_makeData/forward/step fails: %s" % (p.name, variant, tag, ex[:200]), rpv)
+                if ex and ex not in ("ok", "nodata"):
+                    if kind == "pristine":
+                        ctx.violation("pristine-model-misbehaves", "model %s (%s): the reloaded undamaged model fails in "
+                                      "mj_makeData/forward/step: %s" % (p.name, variant, short(ex)), rpv)
                         okall = False
+                    else:       # in-bounds but inconsistent content: outside the property
+                        info["exercise_failures_admissible_images"] = info.get("exercise_failures_admissible_images", 0) + 1
                 continue
             # the specification admits only a rejection
             if kind == "ref" and vc in ("<-1", "=n", ">n", "INT_MAX", "other"):
-                ctx.violation("accepted-out-of-bounds-reference:%s:%s" % (field, vc),
+                ctx.violation("accepted-out-of-bounds-reference:%s:%s" % (c["group"], vc),
                               "model %s (%s): %s = %s is accepted by mj_loadModelBuffer (specification: %s)"
                               % (p.name, variant, field, vc, sorted(o["why"])), rpv)
                 okall = False
             elif kind in ("ref", "ref-unchecked"):
                 # -1 in a mandatory reference / arrays outside the validator's table: sanitizer oracle
                 if variant == "asan" and ex not in (None, "ok", "nodata"):
-                    ctx.violation("accepted-reference-misbehaves:%s:%s" % (field, vc),
+                    if vc == "-1":
+                        MINUS_ONE_FIELDS.add(field)
+                    ctx.violation("accepted-minus-one-in-mandatory-reference" if vc == "-1" else
+                                  "accepted-reference-misbehaves:%s" % (c["group"] + ":" + vc if kind == "ref" else c["group"]),
                                   "model %s: %s = %s is accepted and mj_makeData/forward/step then fails: %s"
-                                  % (p.name, field, vc, ex[:200]), rpv)
+                                  % (p.name, field, vc, short(ex)), rpv)
                     okall = False
                 else:
                     info["accepted_minus_one_survives" if kind == "ref" else "accepted_unchecked_survives"] += 1
             else:
-                ctx.violation("accepted-damaged-image:" + tag, "model %s (%s): image damaged by %s is accepted, the "
-                              "specification admits only a rejection (%s)" % (p.name, variant, tag, sorted(o["why"])), rpv)
+                ctx.violation("accepted-damaged-image:" + tag, "model %s (%s): image damaged by %s:%s:%s is accepted, the "
+                              "specification admits only a rejection (%s)" % (p.name, variant, kind, field, vc, sorted(o["why"])), rpv)
                 okall = False
         if okall:
             ctx.trace_ok()
+
+
+def short(ex):
+    """stable short form of an exercise failure (no paths / build ids)"""
+    ex = ex or ""
+    m = re.search(r'(AddressSanitizer|UndefinedBehaviorSanitizer):_?([\w-]+)', ex)
+    if m:
+        return "sanitizer report: " + m.group(2).strip("_")
+    if ex.startswith("error:"):
+        try:
+            return "mju_error: " + bytes.fromhex(ex[6:]).decode(errors="replace")[:120]
+        except ValueError:
+            pass
+    return ex.replace("_", " ")[:120]
 
 
 def _js(x):
